@@ -20,7 +20,7 @@ def run(prop, tier, seed, replay=None):
     rnd = random.Random(seed)
     q = tier == "quick"
     pool, cases, res = query.generate(400 if q else 12000, seed)
-    rep.add_model(res, "AwQueryGen: enumeration of well-formed programs from the grammar with their texts (Show) in three spacing styles; the judge evaluates Run on each")
+    rep.add_model(res, "AwQueryGen: enumeration of well-formed programs from the grammar with their texts (Show) in four spacing styles; the judge evaluates Run on each")
     if replay is not None:
         cases = [c for c in cases if c["prog"] == replay["prog"]] or [dict(kind="replay", prog=replay["prog"], texts=replay["texts_pieces"])]
     jobs = [{"key": i, "texts": [query.render(t) for t in c["texts"]]} for i, c in enumerate(cases)]
@@ -56,7 +56,7 @@ def run(prop, tier, seed, replay=None):
     nexec = sum(len(r["runs"]) for r in records)
     rep.cov.update(traces_validated_against_impl=len(records), evaluations=nexec, distinct_nontrivial=len({repr(r["prog"]) for r in records if len(repr(r["prog"])) > 80}),
                    rule="programs enumerated by TLC from the grammar (literals to depth 3 with strings containing brackets, commas, quotes, '='; calls with 0-3 arguments and bracketed arguments in every position; "
-                        "every registered built-in with well-typed arguments over event lists; calls inside literals; multi-statement programs with rebinding/aliasing) plus random deeper programs; each run in 3 spacing styles; "
+                        "every registered built-in with well-typed arguments over event lists; calls inside literals; multi-statement programs with rebinding/aliasing) plus random deeper programs; each run in 4 spacing styles (tight, spaced, line break after the separator, line break before the separator); "
                         "evaluations = executions judged (result + full log of built-in applications); non-trivial = AST longer than 80 characters")
     rep.notes.update(programs_by_kind=bykind, backends=kinds)
     rep.sample({"text": records[len(records) // 2]["texts"][1], "prog": records[len(records) // 2]["prog"], "run": records[len(records) // 2]["runs"][1]})
